@@ -2589,7 +2589,11 @@ func extraC10WriteLock(c *Ctx, r *Report) {
 		})
 	}
 	var heldAtEntry func(f *ssa.Function, depth int) bool
+	var closureHeldFwd func(f *ssa.Function) bool
 	heldAtEntry = func(f *ssa.Function, depth int) bool {
+		if f.Parent() != nil && (closureHeldFwd(f) || closureUnderHelperLock(c, f, pkgRegistry, ownerType, mutexField, true)) {
+			return true
+		}
 		top := topParent(f)
 		cs := callers[top]
 		if len(cs) == 0 || depth == 0 {
@@ -2631,6 +2635,7 @@ func extraC10WriteLock(c *Ctx, r *Report) {
 		})
 		return held
 	}
+	closureHeldFwd = closureHeld
 	// sharedRoot: the value is (derived from) guarded state of the registry: a guarded field, or the result of a
 	// Load/LoadOrCompute/Range callback on one; a value allocated or constructed in this function is not shared.
 	var sharedRoot func(v ssa.Value, depth int) string
@@ -2708,6 +2713,8 @@ func extraC10WriteLock(c *Ctx, r *Report) {
 				r.OK("C10-R11", key, in.Pos(), "mu.Lock() dominates the mutation and is not released before it")
 			case closureHeld(f):
 				r.OK("C10-R11", key, in.Pos(), "synchronous closure created while the enclosing function holds mu.Lock()")
+			case closureUnderHelperLock(c, f, pkgRegistry, ownerType, mutexField, true):
+				r.OK("C10-R11", key, in.Pos(), "the closure is run by a helper that holds mu.Lock() around the call")
 			case heldAtEntry(f, 3):
 				r.OK("C10-R11", key, in.Pos(), "helper: every caller holds mu.Lock() at the call site")
 			default:
@@ -2937,8 +2944,17 @@ func sliceBoundProven(bound, x ssa.Value, b *ssa.BasicBlock, depth int) string {
 				}
 			}
 		}
-		// a constant bound needs len(x) >= k: some dominating fact compares len(x) with a constant
+		// a constant bound needs len(x) >= k: some dominating fact compares len(x) with a constant, or x is known to
+		// start / end with a constant of at least that length
 		for _, cf := range normFacts(condFacts(b)) {
+			if call, ok := cf.Cond.(*ssa.Call); ok && cf.True {
+				ci := describeCall(&call.Call)
+				if (ci.Pkg == "strings" || ci.Pkg == "bytes") && (ci.Name == "HasPrefix" || ci.Name == "HasSuffix") && len(call.Call.Args) == 2 && sameValue(stripSameLen(call.Call.Args[0]), stripSameLen(x)) {
+					if pfx, ok := constString(stripSameLen(call.Call.Args[1])); ok && int64(len(pfx)) >= k {
+						return "constant within a tested " + ci.Name
+					}
+				}
+			}
 			if bo, ok := cf.Cond.(*ssa.BinOp); ok {
 				if (isLenOf(bo.X, x) && isConstInt(bo.Y)) || (isLenOf(bo.Y, x) && isConstInt(bo.X)) {
 					return "constant under a length test"
@@ -2951,7 +2967,28 @@ func sliceBoundProven(bound, x ssa.Value, b *ssa.BasicBlock, depth int) string {
 		return "len(x)"
 	}
 	switch v := stripConv(bound).(type) {
+	case *ssa.Extract:
+		// n of `n, err := r.Read(x)` / io.ReadFull(r, x): 0 <= n <= len(x) by the io.Reader contract
+		if call, ok := v.Tuple.(*ssa.Call); ok && v.Index == 0 {
+			args := call.Call.Args
+			name := ""
+			if call.Call.IsInvoke() {
+				name = call.Call.Method.Name()
+			} else {
+				name = describeCall(&call.Call).Name
+			}
+			if (name == "Read" || name == "ReadFull" || name == "ReadAtLeast") && len(args) > 0 {
+				for _, a := range args {
+					if sameValue(stripSameLen(a), stripSameLen(x)) {
+						return "byte count returned by " + name + " into x"
+					}
+				}
+			}
+		}
 	case *ssa.Call:
+		if bi, ok := v.Call.Value.(*ssa.Builtin); ok && bi.Name() == "copy" && len(v.Call.Args) == 2 && sameValue(stripSameLen(v.Call.Args[0]), stripSameLen(x)) {
+			return "count returned by copy into x"
+		}
 		if bi, ok := v.Call.Value.(*ssa.Builtin); ok && bi.Name() == "min" {
 			for _, a := range v.Call.Args {
 				if isLenOf(a, x) {
@@ -3298,6 +3335,52 @@ func extraC13TextVerbatim(c *Ctx, r *Report) {
 		New: "		for i := range anthropicResp.Content {\n			anthropicResp.Content[i].Text = util.TruncateString(anthropicResp.Content[i].Text, 4096)\n		}\n		if respBytes, err := json.Marshal(anthropicResp); err == nil {"})
 }
 
+
+// constTableStrings: v is read from a package-level table (a slice or map literal) whose leaves are all constant
+// strings and which no repo code writes to; returns those strings.
+func constTableStrings(c *Ctx, v ssa.Value) ([]string, bool) {
+	g := globalBehind(v)
+	if g == nil {
+		return nil, false
+	}
+	rows, ok := c.globalTable(g)
+	if !ok {
+		return nil, false
+	}
+	var out []string
+	for _, r := range rows {
+		if r.HasKey {
+			out = append(out, r.Key)
+		}
+		for _, l := range r.Leaves {
+			if l == "\x00" {
+				return nil, false
+			}
+			out = append(out, l)
+		}
+	}
+	// written anywhere (element store, append, reassignment)? then it is not a constant table
+	written := false
+	for _, f := range c.Funcs {
+		if f.Name() == "init" && f.Pkg == g.Pkg {
+			continue
+		}
+		eachInstr(f, func(in ssa.Instruction) {
+			switch x := in.(type) {
+			case *ssa.Store:
+				if globalBehind(x.Addr) == g {
+					written = true
+				}
+			case *ssa.MapUpdate:
+				if globalBehind(x.Map) == g {
+					written = true
+				}
+			}
+		})
+	}
+	return out, !written
+}
+
 // ---------- C14-R9: nothing removes the mode header from the client's response ----------
 func init() { registerExtra("C14", extraC14ModeHeaderSurvives) }
 
@@ -3416,6 +3499,18 @@ func extraC14ModeHeaderSurvives(c *Ctx, r *Report) {
 				if k, ok := constString(name); ok && !strings.EqualFold(k, modeName) {
 					r.OK("C14-R9", key+":"+k, in.Pos(), "removes the constant header "+k+" only")
 					return
+				}
+				if names, ok := constTableStrings(c, name); ok {
+					hit := false
+					for _, k := range names {
+						if strings.EqualFold(k, modeName) {
+							hit = true
+						}
+					}
+					if !hit {
+						r.OK("C14-R9", key+":table", in.Pos(), fmt.Sprintf("removes only headers named in a constant table of %d names, none of which is X-Olla-Mode", len(names)))
+						return
+					}
 				}
 			}
 			r.Bad("C14-R9", key, in.Pos(), "response headers are removed under a computed name (or wholesale, or X-Olla-Mode by name): the mode header stamped by the handler before the proxy ran can disappear from the response, and no attempt stamps it again")
@@ -3699,6 +3794,11 @@ func extraC15InboundHeadersUntouched(c *Ctx, r *Report) {
 			return false
 		}
 		seen[v] = true
+		if o := resolveOrigin(c, v, 6); o != nil && o != v {
+			if _, isParam := o.(*ssa.Parameter); !isParam {
+				return ownRequest(o, depth, seen)
+			}
+		}
 		switch x := v.(type) {
 		case *ssa.Extract:
 			return ownRequest(x.Tuple, depth, seen)
@@ -3709,6 +3809,26 @@ func extraC15InboundHeadersUntouched(c *Ctx, r *Report) {
 			}
 			if ci.Pkg == "net/http/httptest" {
 				return true
+			}
+			if sc := x.Call.StaticCallee(); sc != nil && sc.Blocks != nil && c.inRepo(sc) {
+				// a repo helper that builds the upstream request: every non-nil request it returns is its own
+				ok, n := true, 0
+				eachInstr(sc, func(in ssa.Instruction) {
+					ret, isRet := in.(*ssa.Return)
+					if !isRet {
+						return
+					}
+					for _, res := range ret.Results {
+						if !isNamed(res.Type(), "net/http", "Request") || isNilConst(res) {
+							continue
+						}
+						n++
+						if !ownRequest(res, depth-1, map[ssa.Value]bool{}) {
+							ok = false
+						}
+					}
+				})
+				return ok && n > 0
 			}
 			return false
 		case *ssa.Phi:
@@ -3891,6 +4011,35 @@ func extraC16InboundQueryUntouched(c *Ctx, r *Report) {
 				if isField(fa, "net/http", "Request", "URL") {
 					return false, "the URL field of an *http.Request"
 				}
+				// a URL pointer kept in a struct field: own if every value ever stored into that field is
+				_, fld, _ := fieldOf(fa)
+				nst := 0
+				for _, g := range c.Funcs {
+					bad := ""
+					eachInstr(g, func(in ssa.Instruction) {
+						st, ok := in.(*ssa.Store)
+						if !ok {
+							return
+						}
+						fa2, ok := st.Addr.(*ssa.FieldAddr)
+						if !ok {
+							return
+						}
+						if _, f2, _ := fieldOf(fa2); f2 != fld {
+							return
+						}
+						nst++
+						if o, w := ownURL(st.Val, depth-1); !o {
+							bad = w
+						}
+					})
+					if bad != "" {
+						return false, "a struct field that can hold " + bad
+					}
+				}
+				if nst > 0 {
+					return true, "struct field that only ever holds own URLs"
+				}
 				return false, "a URL pointer kept in a struct field"
 			}
 			if a, ok := x.X.(*ssa.Alloc); ok {
@@ -3997,6 +4146,11 @@ func extraC16RoundTripRequest(c *Ctx, r *Report) {
 		}
 		if p := urlReassigned(v); p.IsValid() {
 			return false, "its URL field is reassigned", p
+		}
+		if o := resolveOrigin(c, v, 6); o != nil && o != v {
+			if _, isParam := o.(*ssa.Parameter); !isParam {
+				return built(o, depth)
+			}
 		}
 		switch x := v.(type) {
 		case *ssa.Extract:
@@ -4172,7 +4326,30 @@ func extraC17HealthFlagExact(c *Ctx, r *Report) {
 				})
 				return ok, why
 			}
+			if ci := describeCall(&x.Call); ci.Pkg == "slices" && ci.Name == "Contains" && len(x.Call.Args) == 2 {
+				if names, ok := constTableStrings(c, x.Call.Args[0]); ok {
+					switch o := x.Call.Args[1].(type) {
+					case *ssa.Parameter, *ssa.FreeVar:
+						return true, fmt.Sprintf("path is one of %d constant paths", len(names))
+					case *ssa.UnOp:
+						if o.Op == token.MUL {
+							return true, fmt.Sprintf("path is one of %d constant paths", len(names))
+						}
+					}
+				}
+			}
 			return false, "the result of " + describeCall(&x.Call).String()
+		case *ssa.Lookup:
+			// membership in a constant set keyed by the whole path
+			if _, ok := constTableStrings(c, x.X); ok {
+				return true, "path is a key of a constant set"
+			}
+		case *ssa.Extract:
+			if lk, ok := x.Tuple.(*ssa.Lookup); ok && x.Index == 1 {
+				if _, ok := constTableStrings(c, lk.X); ok {
+					return true, "path is a key of a constant set"
+				}
+			}
 		}
 		return false, "not an equality with a constant path"
 	}
@@ -4219,6 +4396,49 @@ func extraC17SizeCheckUnconditional(c *Ctx, r *Report) {
 			continue
 		}
 		var cmp *ssa.BinOp
+		var cmpVal ssa.Value // the boolean the function branches on (the comparison, or the call of a predicate helper)
+		var cmpX ssa.Value   // what stands on the comparison's left side, seen from this function
+		// a predicate helper `func exceeds(size, limit int64) bool { return size > limit }` called with the body size
+		eachInstr(f, func(in ssa.Instruction) {
+			call, ok := in.(*ssa.Call)
+			if !ok || cmp != nil {
+				return
+			}
+			sc := call.Call.StaticCallee()
+			if sc == nil || sc.Blocks == nil || !c.inRepo(sc) || len(sc.Blocks) != 1 {
+				return
+			}
+			ret, ok := lastInstr(sc.Blocks[0]).(*ssa.Return)
+			if !ok || len(ret.Results) != 1 {
+				return
+			}
+			bo, ok := ret.Results[0].(*ssa.BinOp)
+			if !ok {
+				return
+			}
+			switch bo.Op {
+			case token.GTR, token.LSS, token.GEQ, token.LEQ:
+			default:
+				return
+			}
+			argOf := func(v ssa.Value) ssa.Value {
+				for i, p := range sc.Params {
+					if ssa.Value(p) == v && i < len(call.Call.Args) {
+						return call.Call.Args[i]
+					}
+				}
+				return nil
+			}
+			ax, ay := argOf(bo.X), argOf(bo.Y)
+			if ax == nil || ay == nil {
+				return
+			}
+			bx, by := mentionsField(ax, pp, pt, "BodySize", 3), mentionsField(ay, pp, pt, "BodySize", 3)
+			if bx == by {
+				return
+			}
+			cmp, cmpVal, cmpX = bo, call, ax
+		})
 		eachInstr(f, func(in ssa.Instruction) {
 			bo, ok := in.(*ssa.BinOp)
 			if !ok || cmp != nil {
@@ -4240,13 +4460,13 @@ func extraC17SizeCheckUnconditional(c *Ctx, r *Report) {
 			if _, isK := other.(*ssa.Const); isK {
 				return // BodySize <= 0 style tests are not the limit comparison
 			}
-			cmp = bo
+			cmp, cmpVal, cmpX = bo, bo, bo.X
 		})
 		if cmp == nil {
 			continue
 		}
 		// polarity of "exceeds": BodySize > max / max < BodySize
-		sizeOnX := mentionsField(cmp.X, pp, pt, "BodySize", 3)
+		sizeOnX := mentionsField(cmpX, pp, pt, "BodySize", 3)
 		exceedsWhenTrue := (sizeOnX && (cmp.Op == token.GTR || cmp.Op == token.GEQ)) || (!sizeOnX && (cmp.Op == token.LSS || cmp.Op == token.LEQ))
 		var otherAttr func(v ssa.Value, depth int) string
 		otherAttr = func(v ssa.Value, depth int) string {
@@ -4284,7 +4504,7 @@ func extraC17SizeCheckUnconditional(c *Ctx, r *Report) {
 			facts := normFacts(condFacts(in.Block()))
 			within, exceeds := false, false
 			for _, cf := range facts {
-				if cf.Cond == ssa.Value(cmp) {
+				if cf.Cond == cmpVal {
 					if cf.True == exceedsWhenTrue {
 						exceeds = true
 					} else {
@@ -4374,6 +4594,21 @@ func extraC18NoInlineRead(c *Ctx, r *Report) {
 						}
 					}
 				})
+			} else {
+				// a named goroutine body: every static call of f is a `go f(…)`
+				nGo, nOther := 0, 0
+				for _, g := range c.Funcs {
+					eachInstr(g, func(pi ssa.Instruction) {
+						if cc2 := getCall(pi); cc2 != nil && cc2.StaticCallee() == f {
+							if _, isGo := pi.(*ssa.Go); isGo {
+								nGo++
+							} else {
+								nOther++
+							}
+						}
+					})
+				}
+				onGo = nGo > 0 && nOther == 0
 			}
 			byPkg[pp] = append(byPkg[pp], site{f, in, onGo})
 		})
